@@ -49,7 +49,8 @@ PROTOS_ODD = [b"HTTP/1.0", b"HTTP/1.10", b"HTTP/1.1 ", b" HTTP/1.1", b"http/1.1"
 
 NAMES_OK = [b"Host", b"Accept", b"X-Foo", b"User-Agent", b"x", b"X_y.z!", b"Content-Type", b"Connection",
             b"Trailer", b"Content-Encoding", b"TE", b"Via", b"Expect", b"Upgrade", b"Content-Range", b"Range",
-            b"Keep-Alive", b"Proxy-Connection", b"Content-MD5", b"X-Content-Length", b"Content-Length-X", b"Host"]
+            b"Keep-Alive", b"Proxy-Connection", b"Content-MD5", b"X-Content-Length", b"Content-Length-X", b"Host",
+            b"HTTP/Upstream-Version", b"HTTP/1.1", b"Digest", b"ETag", b"GET"]
 NAMES_ODD = [b"", b"A B", b"A\tB", b"N\x7fme", b"N\xc3\xa9", b"\xff", b"A\x00", b" Lead", b"Trail "]
 VALUES_OK = [b"x", b"", b"www.example.com", b"a, b, c", b"  padded\t ", b"text/plain; charset=utf-8",
              b"5", b"a:b:c", b"\"quoted, comma\"", b"~!@#$%^&*()", b"a" * 40, b"gzip", b"chunked", b",", b",,a,",
@@ -256,6 +257,9 @@ CODES_OK = [b"200", b"404", b"100", b"0", b"007", b"999", b"000", b"99", b"1", b
             b"206", b"301", b"304", b"500", b"204", b"304"]
 CODES_ODD = [b"1000", b"+200", b"-1", b"2 00", b"", b"20x", b"0x10", b"99999999999999999999", b"2_0",
              b"18446744073709551615", b"18446744073709551616", b" 200", b"200\t", b"\xef\xbc\x92"]
+STATUS_LINES = [b"HTTP/1.1 200 OK", b"HTTP/1.1 206 Partial Content", b"HTTP/1.1 304 Not Modified", b"HTTP/1.1 204 No Content",
+                b"HTTP/1.1 100 Continue", b"HTTP/1.1 101 Switching Protocols", b"HTTP/1.1 404 Not Found", b"HTTP/1.1 500 ",
+                b"HTTP/1.1 416 Range Not Satisfiable", b"HTTP/1.1 201 Created", b"HTTP/1.1 199 x", b"HTTP/1.1 999 "]
 REASONS = [b"OK", b"", b"Not Found", b" OK ", b"O\tK", b"caf\xc3\xa9", b"a  b", b"x" * 50, b"200", b":"]
 REASONS_ODD = [b"\xff", b"O\rK", b"O\nK", b"\x00"]
 TE_VALUES = [b"chunked", b"Chunked", b"CHUNKED", b"gzip, chunked", b"gzip,chunked", b" gzip ,\tdeflate , chunked ",
